@@ -10,6 +10,7 @@ import (
 	"os"
 	"os/exec"
 	"path/filepath"
+	"runtime/debug"
 	"sort"
 	"strings"
 	"sync"
@@ -107,6 +108,67 @@ func (r *Run) TimeUp() bool {
 	}
 	r.Cap("deadline")
 	return true
+}
+
+// panicOrigin names the function that raised a recovered panic (first frame below panic() that is not
+// part of the Go runtime) and says whether it belongs to the code under test.
+func panicOrigin(stack string) (fn string, underTest bool) {
+	repo := os.Getenv("VERIF_REPO")
+	if repo == "" {
+		repo = "/repo"
+	}
+	lines := strings.Split(stack, "\n")
+	i := 0
+	for ; i < len(lines); i++ {
+		if strings.HasPrefix(lines[i], "panic(") {
+			break
+		}
+	}
+	for i++; i+1 < len(lines); i++ {
+		l := lines[i]
+		if l == "" || l[0] == '\t' || strings.HasPrefix(l, "runtime.") || strings.HasPrefix(l, "runtime/") || strings.HasPrefix(l, "panic(") {
+			continue
+		}
+		// closures are inlined under their caller's name: the source file says where the code lives
+		fn = l
+		file := strings.TrimSpace(lines[i+1])
+		underTest = strings.HasPrefix(file, repo+"/") || (strings.HasPrefix(fn, "github.com/rs/zerolog") && !strings.HasPrefix(fn, "github.com/rs/zerolog/mcrt"))
+		break
+	}
+	return
+}
+
+// crashed handles a panic that escaped a case: raised by the code under test it is a violation (the
+// remaining cases stay unexplored, recorded as a cap) and true is returned; raised by the harness itself
+// the panic goes on (a crash of the check, exit 2).
+func (r *Run) crashed(rec interface{}) {
+	stack := string(debug.Stack())
+	fn, under := panicOrigin(stack)
+	if !under {
+		panic(fmt.Sprintf("%v [harness panic, raised in %s]\n%s", rec, fn, stack))
+	}
+	r.Violation("", "escaped-panic/"+fn, fmt.Sprintf("a panic escaped from the code under test into the caller: %v (raised in %s); the cases after this one were not explored", rec, fn), map[string]interface{}{"panic": fmt.Sprint(rec), "stack": stack})
+	r.Cap("a panic escaped from the code under test; remaining cases unexplored")
+}
+
+// CrashGuard is deferred by a check's main: see crashed. It ends the process.
+func (r *Run) CrashGuard() {
+	if rec := recover(); rec != nil {
+		r.crashed(rec)
+		if r.shardMode {
+			r.FinishShard()
+		}
+		r.Exit()
+	}
+}
+
+func (r *Run) guarded(f func()) {
+	defer func() {
+		if rec := recover(); rec != nil {
+			r.crashed(rec)
+		}
+	}()
+	f()
 }
 
 // Violation reports a failing case. sig is the known-finding signature the case matches ("" if none);
@@ -263,7 +325,7 @@ func Sharded(r *Run, n int, body func(r *Run, shard, nshards int)) {
 		var i, nn int
 		fmt.Sscanf(spec, "%d/%d", &i, &nn)
 		r.shardMode = true
-		body(r, i, nn)
+		r.guarded(func() { body(r, i, nn) })
 		d := shardDump{Evals: r.Evals, Transitions: r.Transitions, Samples: r.Samples, Caps: r.Caps, Counters: r.counters, Violations: r.shardViol, Extra: r.Extra}
 		for h := range r.distinct {
 			d.Distinct = append(d.Distinct, h)
@@ -284,7 +346,7 @@ func Sharded(r *Run, n int, body func(r *Run, shard, nshards int)) {
 		os.Exit(0)
 	}
 	if n <= 1 {
-		body(r, 0, 1)
+		r.guarded(func() { body(r, 0, 1) })
 		return
 	}
 	tmp := filepath.Join(drv.VerifDir(), ".build", "tmp")
